@@ -531,12 +531,71 @@ let val_op arch idx pol hex : string =
       fmt_vout a ^ " | " ^ fmt_vout b
     end else fmt_vout (vload_xml_text Xmlops.xstrtod_oracle Xmlops.xstrtof_oracle (opts_of pol) t cps)
 
+(* ------------------------------------------------------------------ request histories on the scopes (C03) *)
+(* m.hist <json|xml> <pol> <doc hex, UTF-8> <program>: the program syntax of jx.hist (harness/drv_jx.cpp) *)
+let hist_op arch pol hex prog : string =
+  let pos = ref 0 in
+  let peek () = if !pos < String.length prog then prog.[!pos] else '\000' in
+  let take () = let c = peek () in incr pos; c in
+  let is_hex c = (c >= '0' && c <= '9') || (c >= 'a' && c <= 'f') in
+  let key () =
+    if take () <> '=' then raise (Bad "=");
+    let st = !pos in
+    while is_hex (peek ()) do incr pos done;
+    let h = String.sub prog st (!pos - st) in
+    match utf8_to_cps (if h = "" then [] else parse_hexbytes h) with Some k -> k | None -> raise (Bad "key not UTF-8") in
+  let ty_of = function
+    | 'b' -> TyBool | 'i' -> TyInt I32 | 'l' -> TyInt I64 | 'u' -> TyInt U64 | 'd' -> TyDbl | 's' -> TyStr | 'n' -> TyNull
+    | _ -> raise (Bad "type") in
+  let rec block () : req list =
+    if take () <> '{' then raise (Bad "{");
+    let acc = ref [] in
+    while peek () <> '}' do
+      let c = take () in
+      let r =
+        (match c with
+         | 'g' -> let t = ty_of (take ()) in let k = key () in QGet (t, Some k)
+         | 't' -> let t = ty_of (take ()) in let k = key () in QAttr (t, k)
+         | 'o' -> let k = key () in QObj (Some k, block ())
+         | 'a' -> let k = key () in QArr (Some k, block ())
+         | 'k' -> QKeys
+         | 'G' -> QGet (ty_of (take ()), None)
+         | 'O' -> QObj (None, block ())
+         | 'A' -> QArr (None, block ())
+         | 'e' -> QEnd
+         | _ -> raise (Bad "request")) in
+      acc := r :: !acc;
+      if peek () = ',' then incr pos
+    done;
+    incr pos;
+    List.rev !acc in
+  let root = take () in
+  let h = block () in
+  let arr = (match root with 'R' -> false | 'S' -> true | _ -> raise (Bad "root")) in
+  let bytes = if hex = "-" then [] else parse_hexbytes hex in
+  match utf8_to_cps bytes with
+  | None -> "DECODE-ERR"
+  | Some cps ->
+    let (answers, e) =
+      if arch = "json" then jhist_text strtod_oracle i2d_oracle (opts_of pol) arr cps h
+      else xhist_text Xmlops.xstrtod_oracle Xmlops.xstrtof_oracle (opts_of pol) arr cps h in
+    let fmt = function
+      | ALoaded v -> "L" ^ fmt_value v
+      | ANot -> "N"
+      | AOpen b -> if b then "O1" else "O0"
+      | AKeys ks -> "K[" ^ String.concat "." (List.map cps_to_utf8_hex ks) ^ "]"
+      | AIsEnd b -> if b then "E1" else "E0"
+      | ABad -> "B" in
+    let parts = List.map fmt answers @ (match e with Some x -> ["EXC:" ^ err_name x] | None -> []) in
+    if parts = [] then "-" else String.concat "," parts
+
 (* ------------------------------------------------------------------ main *)
 let run_case (line : string) : string =
   let t = Array.of_list (String.split_on_char ' ' line) in
   let n = Array.length t in
   try
     match t.(0), (if n > 1 then t.(1) else "") with
+    | "m.hist", ("json" | "xml") when n = 5 -> hist_op t.(1) t.(2) t.(3) t.(4)
     | "m.detect", _ when n = 2 -> detect_op t.(1)
     | "m.xdetect", _ when n = 2 -> Xmlops.xdetect t.(1)
     | "m.val", ("json" | "xml") when n = 5 -> val_op t.(1) t.(2) t.(3) t.(4)
